@@ -5,6 +5,7 @@ from __future__ import annotations
 import ast
 
 from ..index import FuncInfo
+from ..affine import Lin
 from ..nf import NF, Atom, Undecided, app, atoms_of, lift, nf_equal, single_atom, sym
 from ..values import NONE, Cond, DictV, ListV, NoneV, Num, ObjV, OpaqueV, SliceV, StrV, TupleV, valkey
 from .common import ABSTRACT_SUMMARIES, N, Pdim, call_method, frame_sym, new_executor, norm_src, returns, run, symbolic_hyperparams
@@ -112,9 +113,61 @@ def _flatten_list(l):
     return _flatten_list(parts[0]) + _flatten_list(parts[1])
 
 
+def _scatter_cumsum(ctx, f, ex, p, arrs):
+    """idiom B: a zero mask with ones scattered at the changepoints, labels = cumsum(mask): row i is labelled with the
+    number of changepoints <= i.  Returns True if the idiom was recognised (and decided)."""
+    import re
+
+    rule = "C05.e DENSE-FILL"
+    if len(arrs) != 1 or len(arrs[0].stores) != 1 or arrs[0].stores[0].loops:
+        return False
+    a = arrs[0]
+    s = a.stores[0]
+    ctor = [e for e in p.events if e.kind == "pandas_ctor" and e.data.get("which") == "frame"]
+    data = ctor[-1].data.get("data") if ctor else None
+    da = single_atom(data.nf) if isinstance(data, Num) and data.nf is not None else None
+    if da is None or da.kind != "app" or da.args[0] != "cumsum" or not any(x.kind == "arr" and x.args[0] == a.aid for x in atoms_of(da.args[1]).values()):
+        return False
+    ctx.check(a.shape is not None and len(a.shape) == 1 and nf_equal(lift(a.shape[0]), lift(N)), rule, "ChangeDetector|alloc", f.loc(a.node), "one mask entry per row: zeros(len(index))", found=f"shape {a.shape}")
+    val = s.data["value"]
+    one = isinstance(val, Num) and ((val.cond is not None and val.cond.t == ("const", True)) or (val.nf is not None and val.nf.as_const() == 1))
+    ctx.check(one and not s.data.get("aug"), rule, "ChangeDetector|label", s.loc(), "each changepoint contributes exactly one to the running count", found=repr(val), expected="True / 1")
+    idx = s.data["index"]
+    k = valkey(idx[0]) if len(idx) == 1 else ""
+    from_ilocs = "ilocs" in k and "y_sparse" in k
+    ctx.check(from_ilocs, rule, "ChangeDetector|bounds", s.loc(), "the ones are scattered at the changepoints of the sparse output", found=k[:120])
+    # a filter on the changepoints must keep every valid changepoint 0 <= c <= n - 1
+    m = re.search(r"cmp(<=|>=|<|>)\(\[(.*?)\]/\[1\],", k) or re.search(r"cmp(<=|>=|<|>)\(.*?,\[(.*?)\]/\[1\]\)", k)
+    if "C('opq'" in k or "cmp" in k:
+        if not m:
+            ctx.undecided(rule, "ChangeDetector|all-segments", s.loc(), "the changepoints are filtered by a condition that cannot be read", found=k[:160])
+            return True
+        op, btxt = m.group(1), m.group(2).strip()
+        bound_first = bool(re.search(r"cmp(<=|>=|<|>)\(\[", k))
+        known = {"n": lift(N), "n - 1": lift(N) - 1, "n + 1": lift(N) + 1, "n - 2": lift(N) - 2, "0": NF.const(0), "1": NF.const(1), "-1": NF.const(-1)}
+        if btxt not in known:
+            ctx.undecided(rule, "ChangeDetector|all-segments", s.loc(), f"filter bound {btxt!r} not understood", found=k[:160])
+            return True
+        b = known[btxt]
+        cp = sym("cp")
+        lhs, rhs = (b, cp) if bound_first else (cp, b)
+        cond = Cond.cmp(op, lhs, rhs)
+        from ..affine import entails, from_cond
+
+        goal = from_cond(cond, True, True)
+        dom = [Lin.of(cp), Lin.of(lift(N) - 1 - cp)]
+        keeps = goal is not None and all(entails(dom, g) for g in goal)
+        ctx.check(keeps, rule, "ChangeDetector|all-segments", s.loc(), "the filter keeps every valid changepoint 0 <= c <= n - 1 (a changepoint at the last row starts a segment too)", found=f"changepoints[{'%r %s c' % (b, op) if bound_first else 'c %s %r' % (op, b)}]", expected="a condition implied by 0 <= c <= n - 1")
+    else:
+        ctx.holds(rule, "ChangeDetector|all-segments", s.loc(), "every changepoint of the sparse output is scattered (no filter)")
+    return True
+
+
 def dense_fill_change(ctx, f, ex, p):
     rule = "C05.e DENSE-FILL"
     arrs = [e.data["arr"] for e in p.events if e.kind == "alloc" and e.data["arr"].init[0] == "zeros"]
+    if _scatter_cumsum(ctx, f, ex, p, arrs):
+        return
     if len(arrs) != 1 or len(arrs[0].stores) != 1 or not arrs[0].stores[0].loops:
         ctx.undecided(rule, "ChangeDetector", f.loc(), "segment labels are not one zero-allocated vector written in a loop")
         return
